@@ -5,7 +5,7 @@
 (* with all standards known (vnacal_new(3), "Managing Measurement Error    *)
 (* and Tolerance").                                                        *)
 (*                                                                         *)
-(* A configuration is a record [ty, r, c, sn, st, grid, kind, vec]:        *)
+(* A configuration is a record [ty, r, c, sn, st, grid, kind, vec, ud]:    *)
 (*   ty    error-term type;  r x c  calibration dimensions                 *)
 (*   sn    sigma_nf = 10^-sn  (2..6)                                       *)
 (*   st    sigma_tr = 10^-st  (1..5), 0 = sigma_tr_vector NULL             *)
@@ -17,6 +17,15 @@
 (*   kind  what is done with it (below);  vec: which vector carries the    *)
 (*         contrast in the interpolation kinds ("nf" | "tr" | "-")         *)
 (*                                                                         *)
+(*   ud    "-": every column system sees the same standards.  "c1" / "c2"  *)
+(*         (UE14 / E12 with two columns, 2x2 and 3x2): the column systems   *)
+(*         are UNEVENLY determined -- column 1 (resp. 2) is exactly         *)
+(*         determined (short, open, match on its port + the throughs:       *)
+(*         2 rows + 1 equations for 2 rows + 1 unknowns), the other column  *)
+(*         is over-determined by additional reflects on its port only.      *)
+(*         Each column is an independent calibration (vnacal_new(3)): the   *)
+(*         over-determined one must be weighted and tested like any         *)
+(*         over-determined system, whatever the other column looks like     *)
 (* kinds, deterministic (decided per scenario):                            *)
 (*   exact  noise-free over-determined data, fully known standards: the    *)
 (*          weighted solve succeeds and gives the same calibration as the  *)
@@ -80,6 +89,10 @@ IsConfig(x) ==
     /\ x.grid \in Grids
     /\ x.kind \in DetKinds \cup RateKinds
     /\ x.kind = "det" => (x.r = 1 /\ x.c = 1)
+    /\ x.ud \in {"-", "c1", "c2"}
+    /\ x.ud # "-" => /\ x.ty \in {"UE14", "E12"}
+                     /\ x.c = 2 /\ x.r \in {2, 3}
+                     /\ x.kind \in {"exact", "noisy", "outlier"}
     /\ IF x.kind \in {"iacc", "irej"}
        THEN /\ x.grid \in {"two", "n"}
             /\ x.vec \in {"nf", "tr"}
@@ -111,7 +124,8 @@ IsConfig(x) ==
 Configs ==
     {x \in [ty : Types, r : 1..3, c : 1..3, sn : 2..6, st : 0..5,
             grid : Grids, kind : DetKinds \cup RateKinds,
-            vec : {"nf", "tr", "-"} \cup Histories] : IsConfig(x)}
+            vec : {"nf", "tr", "-"} \cup Histories,
+            ud : {"-", "c1", "c2"}] : IsConfig(x)}
 
 -----------------------------------------------------------------------------
 (* deterministic contract: what one scenario's outcome must be *)
@@ -128,7 +142,16 @@ AcceptedOK(o) == o.wret = 0
 RejectedEDOM(o) == o.wret = -1 /\ o.werr = "EDOM" /\ o.wcbn = 1 /\ o.wcat = "MATH"
 
 -----------------------------------------------------------------------------
-(* rate contract: bounds with negligible false-alarm mass                  *)
+(* rate contract: bounds with negligible false-alarm mass, applied per     *)
+(* rate class: one class per type, and the unevenly determined column      *)
+(* scenarios of UE14 / E12 as classes of their own ("for every error-term  *)
+(* type alike" must not depend on how the other column is determined)      *)
+RateClasses == Types \cup {"UE14u1", "UE14u2", "E12u1", "E12u2"}
+RateClassOf(x) ==
+    CASE x.ud = "-" -> x.ty
+      [] x.ud = "c1" -> IF x.ty = "UE14" THEN "UE14u1" ELSE "E12u1"
+      [] x.ud = "c2" -> IF x.ty = "UE14" THEN "UE14u2" ELSE "E12u2"
+
 (*   noisy:   rejections <= 5 % of N  (expected of the order of 0.1 %)     *)
 (*   outlier: EDOM rejections >= 75 % of N                                 *)
 NoisyBoundOK(n, rej)   == 100 * rej <= 5 * n
